@@ -80,6 +80,13 @@ type dentry struct {
 	prfSalt     []byte
 	derivedType string
 	derived     map[string]any
+
+	// origin says where the PRF came from: "generator" (internal/keys), "long-salt" / "reused#j"
+	// (PRF key drawn here and the deriver key rebuilt around the generator's derived-key parameters),
+	// "hmac300" (the stratified 300-byte HMAC entry) or "legacy" (harness-owned deriver key type served
+	// by a key manager: the factory's legacy-primitive route; proto route only).
+	origin string
+	legacy *legacykm.DeriverSpec
 }
 
 func (e *dentry) String() string {
@@ -87,7 +94,7 @@ func (e *dentry) String() string {
 	if e.primary {
 		p = " PRIMARY"
 	}
-	return fmt.Sprintf("{keyset-id=%#x %s%s prf=HKDF-%s key=%x salt=%x -> %s}", e.id, e.status, p, e.prfHash, e.prfKey, e.prfSalt, e.info.Desc)
+	return fmt.Sprintf("{keyset-id=%#x %s%s prf(%s)=HKDF-%s key=%x salt=%x -> %s}", e.id, e.status, p, e.origin, e.prfHash, e.prfKey, e.prfSalt, e.info.Desc)
 }
 
 type dcase struct {
@@ -157,7 +164,7 @@ func prefixTypeOf(variant string) tinkpb.OutputPrefixType {
 }
 
 func newEntry(info *keys.Info) *dentry {
-	e := &dentry{info: info}
+	e := &dentry{info: info, origin: "generator"}
 	pf := info.Fields["prf"].(map[string]any)
 	e.prfHash = pf["hash"].(string)
 	e.prfKey = pf["key_value"].([]byte)
@@ -167,32 +174,148 @@ func newEntry(info *keys.Info) *dentry {
 	return e
 }
 
-// drawKeyset draws 1..4 deriver keys with unique keyset IDs, statuses and a primary.
-func drawKeyset(rt *rapid.T, maxKeys int) []*dentry {
+var hkdfHashTypes = map[string]hkdfprf.HashType{"SHA256": hkdfprf.SHA256, "SHA512": hkdfprf.SHA512}
+
+// ownDeriver builds a PRF-based deriver key around the given derived-key parameters with a PRF key
+// chosen by this package (HKDF-SHA256/512, key >= 32 bytes: the PRFs the deriver supports).
+func ownDeriver(rt *rapid.T, hash string, prfKey, prfSalt []byte, derivedParams key.Parameters, idRequirement uint32) key.Key {
+	pp, err := hkdfprf.NewParameters(len(prfKey), hkdfHashTypes[hash], prfSalt)
+	if err != nil {
+		rt.Fatalf("harness: hkdfprf.NewParameters(%d, %s, salt of %d bytes): %v", len(prfKey), hash, len(prfSalt), err)
+	}
+	pk, err := hkdfprf.NewKey(tk.Secret(prfKey), pp)
+	if err != nil {
+		rt.Fatalf("harness: hkdfprf.NewKey: %v", err)
+	}
+	dp, err := prfbasedkeyderivation.NewParameters(pp, derivedParams)
+	if err != nil {
+		rt.Fatalf("harness: prfbasedkeyderivation.NewParameters: %v", err)
+	}
+	k, err := prfbasedkeyderivation.NewKey(dp, pk, idRequirement)
+	if err != nil {
+		rt.Fatalf("harness: prfbasedkeyderivation.NewKey: %v", err)
+	}
+	return k
+}
+
+// withPRF replaces the PRF of a generator-made deriver entry (same derived-key parameters, variant
+// and ID requirement). The copy of the Info must not be rebuilt through WithVariantID afterwards.
+func (e *dentry) withPRF(rt *rapid.T, origin, hash string, prfKey, prfSalt []byte) {
+	dk := e.info.Key.(*prfbasedkeyderivation.Key)
+	derivedParams := dk.Parameters().(*prfbasedkeyderivation.Parameters).DerivedKeyParameters()
+	ni := *e.info
+	ni.Key = ownDeriver(rt, hash, prfKey, prfSalt, derivedParams, e.info.ID)
+	ni.Desc = "[PRF replaced, see prf(...)] " + e.info.Desc
+	e.info = &ni
+	e.origin, e.prfHash, e.prfKey, e.prfSalt = origin, hash, bytes.Clone(prfKey), bytes.Clone(prfSalt)
+}
+
+var longPRFSalts = []int{63, 64, 65, 127, 128, 129, 200}
+
+// uniqueID makes id differ from every ID in used (the shrinker drives IDs to equal values).
+func uniqueID(used map[uint32]bool, id uint32) uint32 {
+	for used[id] {
+		id++
+	}
+	used[id] = true
+	return id
+}
+
+// generatorInfo draws a key of the shared generator and moves it to a unique ID.
+func generatorInfo(rt *rapid.T, label, typ string, used map[uint32]bool) (*keys.Info, uint32) {
+	info := keys.DrawTypeUsable(rt, label, typ)
+	id := info.ID
+	if !info.HasID {
+		id = gen.KeyID(rt, label+"_ksid")
+	}
+	id = uniqueID(used, id)
+	if info.HasID && id != info.ID {
+		re, ok := info.WithVariantID(info.Variant, id)
+		if !ok {
+			rt.Fatalf("harness: cannot rebuild %s under ID %#x", info, id)
+		}
+		info = re
+	}
+	return info, id
+}
+
+// drawKeyset draws 1..maxKeys deriver keys with unique keyset IDs, statuses and a primary. At low
+// weight (and only for maxKeys >= 4) it is the stratified large case: 9 keys, one of which derives
+// a 300-byte HMAC key. With allowLegacy some entries are harness-owned deriver keys served by a
+// key manager (TINK, CRUNCHY, RAW).
+func drawKeyset(rt *rapid.T, maxKeys int, allowLegacy bool) []*dentry {
 	n := rapid.IntRange(1, maxKeys).Draw(rt, "nkeys")
+	hmacAt := -1
+	if maxKeys >= 4 && rapid.IntRange(0, 39).Draw(rt, "nine_keys") == 0 {
+		n = 9
+		hmacAt = rapid.IntRange(0, n-1).Draw(rt, "hmac300_at")
+	}
 	primary := rapid.IntRange(0, n-1).Draw(rt, "primary")
 	used := map[uint32]bool{}
 	var out []*dentry
 	for i := 0; i < n; i++ {
 		label := fmt.Sprintf("k%d", i)
-		info := keys.DrawTypeUsable(rt, label, "PrfBasedDeriver")
-		id := info.ID
-		if !info.HasID {
-			id = gen.KeyID(rt, label+"_ksid")
-		}
-		for used[id] { // unique by construction (the shrinker makes IDs equal)
-			id++
-		}
-		used[id] = true
-		if info.HasID && id != info.ID {
-			re, ok := info.WithVariantID(info.Variant, id)
-			if !ok {
-				rt.Fatalf("harness: cannot rebuild %s under ID %#x", info, id)
+		var e *dentry
+		switch mode := rapid.IntRange(0, 5).Draw(rt, label+"_entrykind"); {
+		case i == hmacAt:
+			// derived parameters: the generator's HMAC parameters with the key size set to 300 bytes
+			hm, id := generatorInfo(rt, label, "Hmac", used)
+			hp := hm.Key.Parameters().(*hmac.Parameters)
+			big, err := hmac.NewParameters(hmac.ParametersOpts{KeySizeInBytes: 300, TagSizeInBytes: hp.CryptographicTagSizeInBytes(), HashType: hp.HashType(), Variant: hp.Variant()})
+			if err != nil {
+				rt.Fatalf("harness: hmac.NewParameters(300-byte key, otherwise like %s): %v", hm, err)
 			}
-			info = re
+			hash := rapid.SampledFrom([]string{"SHA256", "SHA512"}).Draw(rt, label+"_prfhash")
+			prfKey := gen.BytesN(rt, label+"_prfkey", rapid.SampledFrom([]int{32, 64}).Draw(rt, label+"_prfkeylen"))
+			prfSalt := gen.BytesOrNil(rt, label+"_prfsalt", 40)
+			derived := map[string]any{}
+			for k, v := range hm.Fields {
+				derived[k] = v
+			}
+			derived["key_size"] = 300
+			info := &keys.Info{Class: keys.Deriver, Type: "PrfBasedDeriver", Variant: hm.Variant, ID: hm.ID, HasID: hm.HasID, Usable: true,
+				Key:  ownDeriver(rt, hash, prfKey, prfSalt, big, hm.ID),
+				Desc: fmt.Sprintf("PrfBasedDeriver{derived: Hmac with a 300-byte key, otherwise the parameters of %s}", hm.Desc)}
+			e = &dentry{info: info, origin: "hmac300", prfHash: hash, prfKey: prfKey, prfSalt: prfSalt, derivedType: "Hmac", derived: derived}
+			e.id = id
+		case allowLegacy && mode == 0:
+			variant := rapid.SampledFrom([]string{tk.Tink, tk.Crunchy, tk.NoPrefix}).Draw(rt, label+"_legacy_variant")
+			id := uniqueID(used, gen.KeyID(rt, label+"_ksid"))
+			spec := &legacykm.DeriverSpec{
+				Hash:        rapid.SampledFrom([]string{"SHA256", "SHA512"}).Draw(rt, label+"_prfhash"),
+				DerivedSize: rapid.SampledFrom([]int{16, 32}).Draw(rt, label+"_legacy_derived_size"),
+				PRFKey:      gen.BytesN(rt, label+"_prfkey", rapid.SampledFrom([]int{32, 32, 33, 64}).Draw(rt, label+"_prfkeylen")),
+			}
+			if rapid.IntRange(0, 4).Draw(rt, label+"_legacy_longsalt") == 0 {
+				spec.PRFSalt = gen.BytesN(rt, label+"_prfsalt", rapid.SampledFrom(longPRFSalts).Draw(rt, label+"_prfsaltlen"))
+			} else {
+				spec.PRFSalt = gen.BytesOrNil(rt, label+"_prfsalt", 40)
+			}
+			info := &keys.Info{Class: keys.Deriver, Type: "verif.LegacyDeriver", Variant: variant, HasID: variant != tk.NoPrefix, Usable: true,
+				Desc: fmt.Sprintf("verif.LegacyDeriver{key-manager primitive; derived: AesGcm key_size=%d iv=12 tag=16 variant=%s}", spec.DerivedSize, variant)}
+			if info.HasID {
+				info.ID = id
+			}
+			e = &dentry{info: info, origin: "legacy", legacy: spec, prfHash: spec.Hash, prfKey: spec.PRFKey, prfSalt: spec.PRFSalt, derivedType: "AesGcm", derived: map[string]any{"key_size": spec.DerivedSize}}
+			e.id = id
+		default:
+			info, id := generatorInfo(rt, label, "PrfBasedDeriver", used)
+			e = newEntry(info)
+			e.id = id
+			switch {
+			case mode == 1 && i > 0:
+				// the PRF key and salt of an earlier entry again (same or another derived type, other ID)
+				j := rapid.IntRange(0, i-1).Draw(rt, label+"_reuse_of")
+				if src := out[j]; len(src.prfKey) >= 32 {
+					e.withPRF(rt, fmt.Sprintf("reused#%d", j), src.prfHash, src.prfKey, src.prfSalt)
+				}
+			case mode == 2:
+				hash := rapid.SampledFrom([]string{"SHA256", "SHA512"}).Draw(rt, label+"_prfhash")
+				prfKey := gen.BytesN(rt, label+"_prfkey", rapid.SampledFrom([]int{32, 32, 33, 48, 64, 65, 128, 129}).Draw(rt, label+"_prfkeylen"))
+				prfSalt := gen.BytesN(rt, label+"_prfsalt", rapid.SampledFrom(longPRFSalts).Draw(rt, label+"_prfsaltlen"))
+				e.withPRF(rt, "long-salt", hash, prfKey, prfSalt)
+			}
 		}
-		e := newEntry(info)
-		e.id = id
 		e.status = stEnabled
 		if i == primary {
 			e.primary = true
@@ -233,6 +356,17 @@ func buildHandle(rt *rapid.T, c *dcase) *keyset.Handle {
 	case "proto":
 		ks := &tinkpb.Keyset{}
 		for i, e := range c.entries {
+			if e.legacy != nil {
+				lk, err := legacykm.DeriverKey(*e.legacy, prefixTypeOf(e.info.Variant), e.id, protoStatus(e.status))
+				if err != nil {
+					rt.Fatalf("%v\nharness: legacy deriver entry %d: %v", c, i, err)
+				}
+				ks.Key = append(ks.Key, lk)
+				if e.primary {
+					ks.PrimaryKeyId = e.id
+				}
+				continue
+			}
 			ser, err := protoserialization.SerializeKey(e.info.Key)
 			if err != nil {
 				rt.Fatalf("%v\nharness: SerializeKey of entry %d: %v", c, i, err)
@@ -276,6 +410,14 @@ func material(k key.Key) ([]byte, bool) {
 
 // referenceKey builds, with the key type's ordinary constructor, the key the property prescribes.
 func referenceKey(e *dentry, mat []byte) (key.Key, error) {
+	if e.legacy != nil {
+		v := map[string]aesgcm.Variant{tk.Tink: aesgcm.VariantTink, tk.Crunchy: aesgcm.VariantCrunchy, tk.NoPrefix: aesgcm.VariantNoPrefix}[e.info.Variant]
+		p, err := aesgcm.NewParameters(aesgcm.ParametersOpts{KeySizeInBytes: e.legacy.DerivedSize, IVSizeInBytes: 12, TagSizeInBytes: 16, Variant: v})
+		if err != nil {
+			return nil, err
+		}
+		return aesgcm.NewKey(tk.Secret(mat), e.info.ID, p)
+	}
 	dk := e.info.Key.(*prfbasedkeyderivation.Key)
 	params := dk.Parameters().(*prfbasedkeyderivation.Parameters).DerivedKeyParameters()
 	s := tk.Secret(mat)
@@ -532,8 +674,13 @@ func interop(rt *rapid.T, c *dcase, e *dentry, derivedKey, refKey key.Key, msg, 
 func TestDeriveKeyset(t *testing.T) {
 	rapid.Check(t, func(rt *rapid.T) {
 		detrand.Seed(rapid.Uint64().Draw(rt, "entropy"))
-		c := &dcase{entries: drawKeyset(rt, 4)}
-		c.route = rapid.SampledFrom([]string{"manager", "proto"}).Draw(rt, "route")
+		legacykm.RegisterDeriver()
+		c := &dcase{route: rapid.SampledFrom([]string{"manager", "proto"}).Draw(rt, "route")}
+		c.entries = drawKeyset(rt, 4, c.route == "proto")
+		hasLegacy := false
+		for _, e := range c.entries {
+			hasLegacy = hasLegacy || e.legacy != nil
+		}
 		c.salt = gen.BytesOrNil(rt, "salt", 300)
 		msg := gen.Bytes(rt, "msg", 200)
 		ad := gen.Bytes(rt, "ad", 40)
@@ -558,10 +705,16 @@ func TestDeriveKeyset(t *testing.T) {
 		}
 		// the second deriver object comes from the other public factory, NewWithConfig with the V0
 		// configuration (same PRF-based deriver, constructed without the global registry)
-		v0 := keyderivationconfig.V0()
-		d2, err := keyderivation.NewWithConfig(h, &v0)
-		if err != nil {
-			rt.Fatalf("%v\nkeyderivation.NewWithConfig(V0): %v", c, err)
+		var d2 keyderivation.KeysetDeriver
+		if hasLegacy { // V0 knows no key managers: the second object comes from the registry route again
+			if d2, err = keyderivation.New(h); err != nil {
+				rt.Fatalf("%v\nsecond keyderivation.New: %v", c, err)
+			}
+		} else {
+			v0 := keyderivationconfig.V0()
+			if d2, err = keyderivation.NewWithConfig(h, &v0); err != nil {
+				rt.Fatalf("%v\nkeyderivation.NewWithConfig(V0): %v", c, err)
+			}
 		}
 		fresh := derive(rt, c, d2, c.salt, "second deriver object")
 		if diff := sameSnapshot(first, fresh); diff != "" {
@@ -670,8 +823,7 @@ func TestDeriveKeyset(t *testing.T) {
 			if bytes.Equal(gotOther, got) {
 				rt.Fatalf("%v\nsalts %x and %x derive the same %s material %x from deriver key %#x", c, c.salt, salt2, e.derivedType, got, e.id)
 			}
-			sib := siblingDeriver(rt, c, e)
-			sd, err := keyderivation.New(oneKeyHandle(rt, c, sib, "sibling deriver"))
+			sd, err := keyderivation.New(siblingDeriver(rt, c, e))
 			if err != nil {
 				rt.Fatalf("%v\nkeyderivation.New for a deriver with one PRF key byte flipped: %v", c, err)
 			}
@@ -704,10 +856,28 @@ func TestDeriveKeyset(t *testing.T) {
 		if nst[stDisabled]+nst[stDestroyed] > 0 {
 			mix = "mixed-status"
 		}
-		class := fmt.Sprintf("%s/n=%d/%s/%s", c.entries[0].derivedType, len(c.entries), mix, c.route)
+		origins := map[string]bool{}
+		for _, e := range c.entries {
+			o := e.origin
+			if strings.HasPrefix(o, "reused") {
+				o = "reused"
+			}
+			origins[o] = true
+			evid.Add("entries_prf_"+o, 1)
+			if len(e.prfSalt) > 62 {
+				evid.Add(fmt.Sprintf("entries_prf_salt_len_%d", len(e.prfSalt)), 1)
+			}
+		}
+		var os []string
+		for _, o := range []string{"generator", "long-salt", "reused", "legacy", "hmac300"} {
+			if origins[o] {
+				os = append(os, o)
+			}
+		}
+		class := fmt.Sprintf("%s/n=%d/%s/%s/prf=%s", c.entries[0].derivedType, len(c.entries), mix, c.route, strings.Join(os, "+"))
 		fp := evid.NewH().S(c.route).B(c.salt)
 		for _, e := range c.entries {
-			fp = fp.S(e.info.Desc).S(e.status).I(int64(e.id))
+			fp = fp.S(e.info.Desc).S(e.status).I(int64(e.id)).S(e.prfHash).B(e.prfKey).B(e.prfSalt)
 			if e.primary {
 				fp = fp.I(1)
 			}
@@ -719,12 +889,25 @@ func TestDeriveKeyset(t *testing.T) {
 	})
 }
 
-// siblingDeriver is e's deriver key with one PRF key byte flipped (same parameters, same ID).
-func siblingDeriver(rt *rapid.T, c *dcase, e *dentry) key.Key {
-	dk := e.info.Key.(*prfbasedkeyderivation.Key)
-	params := dk.Parameters().(*prfbasedkeyderivation.Parameters)
+// siblingDeriver is a one-key handle with e's deriver key, one PRF key byte flipped (same parameters, same ID).
+func siblingDeriver(rt *rapid.T, c *dcase, e *dentry) *keyset.Handle {
 	kb := append([]byte{}, e.prfKey...)
 	kb[len(kb)/2] ^= 0x40
+	if e.legacy != nil {
+		spec := *e.legacy
+		spec.PRFKey = kb
+		lk, err := legacykm.DeriverKey(spec, prefixTypeOf(e.info.Variant), e.id, tinkpb.KeyStatusType_ENABLED)
+		if err != nil {
+			rt.Fatalf("%v\nharness: sibling legacy deriver key: %v", c, err)
+		}
+		h, err := legacykm.HandleFromProto(&tinkpb.Keyset{PrimaryKeyId: e.id, Key: []*tinkpb.Keyset_Key{lk}})
+		if err != nil {
+			rt.Fatalf("%v\nharness: sibling legacy deriver keyset: %v", c, err)
+		}
+		return h
+	}
+	dk := e.info.Key.(*prfbasedkeyderivation.Key)
+	params := dk.Parameters().(*prfbasedkeyderivation.Parameters)
 	pk, err := hkdfprf.NewKey(tk.Secret(kb), params.PRFParameters().(*hkdfprf.Parameters))
 	if err != nil {
 		rt.Fatalf("%v\nharness: sibling PRF key: %v", c, err)
@@ -733,7 +916,7 @@ func siblingDeriver(rt *rapid.T, c *dcase, e *dentry) key.Key {
 	if err != nil {
 		rt.Fatalf("%v\nharness: sibling deriver key: %v", c, err)
 	}
-	return sib
+	return oneKeyHandle(rt, c, sib, "sibling deriver")
 }
 
 // wholeHandle uses the derived handle itself with its class factory: the primary derived key
@@ -879,7 +1062,7 @@ var noDeriverTypes = []string{
 func TestDeriveOutOfDomain(t *testing.T) {
 	rapid.Check(t, func(rt *rapid.T) {
 		detrand.Seed(rapid.Uint64().Draw(rt, "entropy"))
-		good := drawKeyset(rt, 3)
+		good := drawKeyset(rt, 3, false)
 		kind := rapid.SampledFrom([]string{"constructed", "keys-package"}).Draw(rt, "kind")
 		var bad key.Key
 		var badDesc string
